@@ -462,3 +462,21 @@ Proof.
   pose proof (Qfloor_le q) as H1. pose proof (Qlt_floor q) as H2.
   rewrite inject_Z_plus in H2. change (inject_Z 1) with 1 in H2. split; lra.
 Qed.
+
+(* inside the guard every host sleep is >= 0, so the bound above applies to every delay *)
+Lemma motor_sleeps_nonneg : forall m o, motor_in_range m o = true ->
+  Forall (fun q => 0 <= q) (sleeps (mevents (mstep m o))).
+Proof.
+  intros m o G. unfold motor_in_range in G. apply andb_true_iff in G as [Ga _].
+  destruct o as [v|ov| | | |t du|du v| | | |]; try (cbn; constructor).
+  - destruct (speed_ok_spec v Ga) as [_ Cs]. cbn [mstep]. rewrite Cs. rewrite ok_with_events. cbn. constructor.
+  - destruct (speed_ok_spec (dflt_back ov) Ga) as [_ Cs]. cbn [mstep]. rewrite Cs. rewrite ok_with_events. cbn. constructor.
+  - apply andb_true_iff in Ga as [Gs Gd].
+    destruct (speed_ok_spec t Gs) as [_ Cs]. destruct (dur_ok_spec du Gd) as (Pl & _ & Dn).
+    cbn [mstep]. rewrite Pl, Cs. rewrite ok_with_events, ramp_run_dc, ramp_loop_sleeps.
+    destruct (Qltb 0 (qval du / inject_Z dc_ramp_steps)) eqn:E; [|constructor].
+    apply Qltb_true in E. apply Forall_forall. intros x Hx. apply repeat_spec in Hx. subst x. lra.
+  - apply andb_true_iff in Ga as [Gd Gs].
+    destruct (speed_ok_spec v Gs) as [_ Cs]. destruct (dur_ok_spec du Gd) as (Pl & _ & Dn).
+    cbn [mstep]. rewrite Pl, Cs. unfold set_speed_q, apply_speed, halt. rewrite ok_with_events. cbn. constructor; [exact Dn|constructor].
+Qed.
